@@ -7,6 +7,7 @@ pass the existing tests" - instead of against hand-picked edits.  Works in per-w
 /repo and /verif (removed at the end); never touches /repo.  Output: one JSON line per mutant."""
 import json, os, re, shutil, subprocess, sys, tempfile, threading, queue, hashlib
 
+NO_DOC = "--with-doc" not in sys.argv      # the pinned suite is the 134 lib tests; doctests are optional (slow)
 VERIF = os.path.dirname(os.path.dirname(os.path.abspath(__file__)))
 REPO = "/repo"
 FILES = ["copy.rs", "flattenexact.rs", "iter.rs", "ops.rs", "serde.rs", "sort.rs", "toodee.rs", "translate.rs", "view.rs"]
@@ -130,7 +131,7 @@ def worker(wid, q, res, tmp, lock, outfh):
             elif "134 passed" not in o:
                 rec["status"] = "killed"
             else:
-                rc2, o2 = run(["cargo", "test", "--offline", "--doc"], timeout=600)
+                rc2, o2 = (0, "") if NO_DOC else run(["cargo", "test", "--offline", "--doc"], timeout=600)
                 if rc2 != 0:
                     rec["status"] = "killed-doc"
                 else:
